@@ -100,6 +100,12 @@ static Eigen::Matrix3d boxmat(const std::string &b) {
   else if (b == "tric") { m.col(0) = V3(10, 0, 0); m.col(1) = V3(2, 12, 0); m.col(2) = V3(1, 3, 14); }
   else if (b == "tric2") { m.col(0) = V3(9, 0, 0); m.col(1) = V3(-3, 11, 0); m.col(2) = V3(2, -4, 12); }
   else if (b == "big") m.diagonal() << 25, 30, 40;
+  // triclinic boxes whose c vector has a large y component of either sign (|c_y| up to ~b_y/2): the number of b images
+  // must be taken from the c-reduced difference; bonds <= 2 in the 6-boxes, <= 1 in the 4-boxes keep every component < half a box
+  else if (b == "tricP") { m.col(0) = V3(6, 0, 0); m.col(1) = V3(1.5, 6, 0); m.col(2) = V3(1, 2.5, 6); }
+  else if (b == "tricN") { m.col(0) = V3(6, 0, 0); m.col(1) = V3(-1.5, 6, 0); m.col(2) = V3(-1, -2.5, 6); }
+  else if (b == "tric4") { m.col(0) = V3(4, 0, 0); m.col(1) = V3(1, 4, 0); m.col(2) = V3(0.5, 1.5, 4); }
+  else if (b == "tric4n") { m.col(0) = V3(4, 0, 0); m.col(1) = V3(-1, 4, 0); m.col(2) = V3(-0.5, -1.5, 4); }
   return m;
 }
 static void motion(int k, Eigen::Matrix3d &R, V3 &t) {
@@ -541,6 +547,30 @@ static void all_cases(bool thorough, CaseList &C) {
     for (auto &l1 : LD) for (auto &l2 : LD) for (auto &l3 : LD) for (auto &t1 : BA) for (auto &t2 : BA) for (auto &ph : PHI2)
       deep("dihedral", 4, "l=" + l1 + "," + l2 + "," + l3 + ";th=" + t1 + "," + t2 + ";phi=" + ph, MSUB);
   }
+  // both tiers: image shifts along c (+-c, +-2c, and combinations with a and b) of every bead in triclinic boxes with c_y != 0 of
+  // either sign, where (r_y + n_c c_y)/b_y rounds differently before and after the c reduction for a large part of the geometries
+  {
+    const std::vector<std::string> SHC = {"0:0:1", "0:0:-1", "0:0:2", "0:0:-2", "1:0:1", "0:1:-1", "-1:-1:2", "1:-1:-2"};
+    auto cfam = [&](const std::string &kind, int nb, const std::string &geo, const std::vector<int> &mots, const std::vector<std::string> &boxes) {
+      for (int mot : mots)
+        for (auto &box : boxes) {
+          std::string hb = "b;kind=" + kind + ";" + geo + ";box=" + box + ";mot=" + std::to_string(mot) + ";sh=";
+          C.push_back(hb + "none");
+          for (int b = 0; b < nb; b++) for (auto &sh : SHC) C.push_back(hb + std::to_string(b) + ":" + sh);
+        }
+    };
+    const std::vector<int> M6 = {0, 1, 2, 3, 4, 5}, M2 = {0, 4};
+    const std::vector<std::string> B6 = {"tricP", "tricN"}, B4 = {"tric4", "tric4n"}, LS = {"1", "0.5"};
+    std::vector<std::pair<std::string, std::string>> TH = {{"90", "90"}, {"60", "120"}, {"45", "135"}};
+    for (auto &l1 : L) cfam("bond", 2, "l=" + l1, M6, B6);
+    for (auto &l1 : LS) cfam("bond", 2, "l=" + l1, M6, B4);
+    for (auto &l1 : L) for (auto &l2 : L) for (auto &a : ANG) cfam("angle", 3, "l=" + l1 + "," + l2 + ";th=" + a, M6, B6);
+    for (auto &l1 : LS) for (auto &l2 : LS) for (auto &a : ANG) cfam("angle", 3, "l=" + l1 + "," + l2 + ";th=" + a, M6, B4);
+    for (auto &l1 : L) for (auto &l2 : L) for (auto &l3 : L) for (auto &t : TH) for (auto &ph : PHI)
+      cfam("dihedral", 4, "l=" + l1 + "," + l2 + "," + l3 + ";th=" + t.first + "," + t.second + ";phi=" + ph, M2, B6);
+    for (auto &l1 : LS) for (auto &l2 : LS) for (auto &l3 : LS) for (auto &t : TH) for (auto &ph : PHI)
+      cfam("dihedral", 4, "l=" + l1 + "," + l2 + "," + l3 + ";th=" + t.first + "," + t.second + ";phi=" + ph, M2, B4);
+  }
   // potential functions
   {
     std::vector<std::pair<std::string, std::string>> RNG = {{"0.5", "1.5"}, {"0.3", "1.2"}};
@@ -688,7 +718,9 @@ int main(int argc, char **argv) {
   R.rule =
       "b: IBond/IAngle/IDihedral built from bond lengths {0.5,1,2}, angles 15..165 step 15 deg, dihedrals -165..165 step 30 deg (bond angles of the "
       "dihedral from a fixed list), each under rigid motions (identity, translation, 2-3 rotations+translations) in an open box and in cubic/"
-      "orthorhombic/triclinic boxes, unshifted and with single beads shifted by box-vector combinations {a,-b,c,-a+b-c}: Grad vs central "
+      "orthorhombic/triclinic boxes, unshifted and with single beads shifted by box-vector combinations {a,-b,c,-a+b-c}; additionally (both tiers) triclinic boxes "
+      "with a large c_y of either sign, a=(6,0,0) b=(+-1.5,6,0) c=(+-1,+-2.5,6) for all geometries and a=(4,0,0) b=(+-1,4,0) c=(+-0.5,+-1.5,4) for bond lengths <= 1, every "
+      "bead shifted by {c,-c,2c,-2c,a+c,b-c,-a-b+2c,a-b-2c} (6 motions for bond/angle, motions {0,4} for the dihedral): Grad vs central "
       "differences of EvaluateVar (h=2^-10,2^-11,2^-12, two Richardson levels, tolerance 8*(|R2-R1|+8 eps|f|/h)+1e-9), sum of gradients, "
       "invariance/covariance vs identity motion, invariance vs unshifted. p: LJ126 (9 parameter vectors), LJG (243), CBSPL (3^5, thorough also 3^6) x 2 "
       "(min,cut) ranges x 9 r in [min,cut] incl. both ends (CBSPL: also every break and its two floating-point neighbours): DF and D2F vs first/second/mixed "
@@ -725,7 +757,7 @@ int main(int argc, char **argv) {
   R.counters["cases_in_all_shards"] = a.shard == 0 ? CL.n : 0;
   fprintf(stderr, "largest tolerance granted in this shard: %g\n", maxtol);
   R.assumptions = {std::string("geometries within ") + (thorough ? "10 (angles) / 15 (dihedrals)" : "15") + " degrees of the singular ones (angle 0/180, dihedral 0/180, collinear dihedral arms) are not on the lattice",
-                   "bond lengths <= 2 in boxes >= 8, so the minimum image is unambiguous (C02 covers the convention itself)",
+                   "every component of every bond vector stays below half the box (bond lengths <= 2 in boxes >= 6, <= 1 in the 4-boxes), so the minimum image is unambiguous (C02 covers the convention itself)",
                    "finite-difference tolerance = 8 x (difference of two Richardson levels + rounding bound) + 1e-9..1e-10 relative",
                    "CBSPL derivatives are taken w.r.t. the optimised coefficients (setOptParam/getOptParam), as CalculateDF documents",
                    "SavePotTab is compared with the function as reported after the call (CBSPL extrapolates its excluded coefficients while saving)",
